@@ -153,6 +153,9 @@ def tasks(tier, seed=0):
         out.append(('small', e, -1))
     out += [('shapes', k) for k in range(8)]
     out += [('short',), ('nested-short',)]
+    out += [('siblings', n) for n in ((64, 256, 1024, 2048)
+                                      if tier == 'thorough'
+                                      else (64, 256, 1024))]
     out += [('large', k) for k in range(len(LARGE_KINDS))]
     out += [('big', k) for k in range(5)]
     return out
@@ -214,6 +217,12 @@ def inputs(task, tier, seed=0):
         depth = 16 if tier == 'thorough' else 12
         wraps = dict(faults.envelopes())
         for label, body in faults.nested_short(depth):
+            yield label + ' (method argument table)', wraps['table-body'](body)
+            props = b'\x20\x00' + struct.pack('>I', len(body)) + body
+            yield label + ' (headers property)', wraps['header-flags'](props)
+    elif kind == 'siblings':
+        wraps = dict(faults.envelopes())
+        for label, body in faults.sibling_lies(task[1]):
             yield label + ' (method argument table)', wraps['table-body'](body)
             props = b'\x20\x00' + struct.pack('>I', len(body)) + body
             yield label + ' (headers property)', wraps['header-flags'](props)
